@@ -6,9 +6,9 @@ a secure selector; lexical containment of normalised paths
 -/
 namespace Pyg
 
-theorem secureB_iff (fb : List Str) (s : Str) :
-    secureB fb s = true ↔ ∀ f ∈ fb, ¬ f <:+: s := by
-  simp only [secureB, List.all_eq_true, Bool.not_eq_true']
+theorem infixOk_iff (fb : List Str) (s : Str) :
+    (fb.all fun f => !isInfixB f s) = true ↔ ∀ f ∈ fb, ¬ f <:+: s := by
+  simp only [List.all_eq_true, Bool.not_eq_true']
   constructor
   · intro h f hf hin
     have := h f hf
@@ -19,31 +19,46 @@ theorem secureB_iff (fb : List Str) (s : Str) :
     | false => rfl
     | true => exact absurd ((isInfixB_iff f s).mp hb) (h f hf)
 
-theorem secure_infix_closed {fb : List Str} {s t : Str} (hs : secureB fb s = true)
-    (ht : t <:+: s) : secureB fb t = true := by
-  rw [secureB_iff] at *
-  intro f hf hin
-  exact hs f hf (hin.trans ht)
+/-- the substring part of the filter: no forbidden substring anywhere -/
+def InfixSafe (fb : List Str) (s : Str) : Prop := ∀ f ∈ fb, ¬ f <:+: s
+
+theorem infixSafe_infix_closed {fb : List Str} {s t : Str} (hs : InfixSafe fb s) (ht : t <:+: s) :
+    InfixSafe fb t := fun f hf hin => hs f hf (hin.trans ht)
+
+theorem secureB_iff (fb : List Str) (s : Str) :
+    secureB fb s = true ↔ (∀ f ∈ fb, ¬ f <:+: s) ∧ isSuffixB [47, 46] s = false := by
+  simp only [secureB, Bool.and_eq_true, infixOk_iff, Bool.not_eq_true']
+
+theorem secure_infixSafe {fb : List Str} {s : Str} (hs : secureB fb s = true) : InfixSafe fb s :=
+  ((secureB_iff fb s).mp hs).1
 
 theorem secure_no_infix {fb : List Str} {s f : Str} (hs : secureB fb s = true) (hf : f ∈ fb) :
-    ¬ f <:+: s := (secureB_iff fb s).mp hs f hf
+    ¬ f <:+: s := ((secureB_iff fb s).mp hs).1 f hf
+
+/-- the last component of a secure selector is not a single dot -/
+theorem secure_not_dot_suffix {fb : List Str} {s : Str} (hs : secureB fb s = true) :
+    isSuffixB [47, 46] s = false := ((secureB_iff fb s).mp hs).2
 
 theorem mem_infix_singleton {c : Nat} {s : Str} (h : c ∈ s) : [c] <:+: s := by
   obtain ⟨a, b, hab⟩ := List.append_of_mem h
   exact ⟨a, b, by simp [hab]⟩
 
 /-- every `/`-component of a secure selector is secure, is not `..`, and has no NUL -/
-theorem secure_components {fb : List Str} {s : Str} (hs : secureB fb s = true)
+theorem infixSafe_components {fb : List Str} {s : Str} (hs : InfixSafe fb s)
     (hdd : [46,46] ∈ fb) (hnul : [0] ∈ fb) :
     ∀ c ∈ splitOn 47 s, c ≠ [46,46] ∧ 0 ∉ c := by
   intro c hc
   have hci : c <:+: s := (splitOn_spec 47 s).2 c hc
-  have hsec := secure_infix_closed hs hci
   constructor
   · intro h
-    exact secure_no_infix hsec hdd (by rw [h]; exact List.infix_refl _)
+    exact hs _ hdd (by rw [← h]; exact hci)
   · intro h0
-    exact secure_no_infix hsec hnul (mem_infix_singleton h0)
+    exact hs _ hnul ((mem_infix_singleton h0).trans hci)
+
+theorem secure_components {fb : List Str} {s : Str} (hs : secureB fb s = true)
+    (hdd : [46,46] ∈ fb) (hnul : [0] ∈ fb) :
+    ∀ c ∈ splitOn 47 s, c ≠ [46,46] ∧ 0 ∉ c :=
+  infixSafe_components (secure_infixSafe hs) hdd hnul
 
 /-! ### lexical normalisation -/
 
